@@ -12,7 +12,7 @@
    show that the hypotheses never exclude a state or a store answer. *)
 From Coq Require Import List NArith ZArith Bool Lia.
 From Verif Require Import Locks.Model Locks.ProofsBase Locks.ProofsInv Locks.ProofsCommit Locks.ProofsLock
-  Locks.ProofsLockAgg Locks.ProofsLockAll Locks.ProofsMain Locks.ProofsKA.
+  Locks.ProofsLockAgg Locks.ProofsLockAll Locks.ProofsMain Locks.ProofsKA Locks.ProofsSched.
 Import ListNotations.
 Open Scope N_scope.
 
@@ -230,6 +230,60 @@ Example C06_partial_batches_in_one_region :
    map fst (store s) = [1; 2] /\ tasks s = [TPessRb [1; 2; 3] 10] /\ flags s = []) /\
   store (run (init true) partial_batches_run) = [].
 Proof. split; [wf_solve|]. vm_compute. auto. Qed.
+
+(* lost release requests.  A release task whose request (or response) is lost is retried by the sender and stays
+   pending — partial progress is [ERunSome], completion [ERun]; a task that is lost for good (retry budget
+   exhausted) simply never completes.  Without assuming that the tasks drain: once the transaction has ended,
+   EVERY remaining lock is one that a release task that has not completed would release — locks remain only under
+   release requests that were lost for good (no task left => no lock left: C06_no_leftover) *)
+Theorem C06_leftover_only_under_unfinished_release :
+  forall (p : bool) (evs : list ev), wf_run (init p) evs ->
+  let s := run (init p) evs in
+  valid s = false -> forall l, In l (store s) -> exists t, In t (tasks s) /\ releases t l = true.
+Proof. intros p evs H s Hv l Hl. apply leftover_under_unfinished_tasks; auto. apply bookkeeping_inv; auto. Qed.
+Print Assumptions C06_leftover_only_under_unfinished_release.
+
+(* a rollback lost for good on key 2 (its batch never completes) while the batch of key 1 completes *)
+Definition lost_release_run2 : list ev :=
+  [ELock [1; 2; 3] false false false 10 (mkLO false false [1; 2] [] 0 (Some FNoWait)); ERunSome 0 [1]; ERollback].
+Example C06_lost_release :
+  wf_run (init true) lost_release_run2 /\
+  let s := run (init true) lost_release_run2 in
+  valid s = false /\ store s = [(2, Pess 10)] /\ tasks s = [TPessRb [1; 2; 3] 10] /\
+  store (run (init true) (lost_release_run2 ++ [ERun 0])) = [].
+Proof. split; [wf_solve|]. vm_compute. auto. Qed.
+
+(* Rollback whose own (synchronous) release request for key 2 never completed *)
+Example C06_rollback_with_lost_release :
+  let evs := [ELock [1; 2] false false false 10 (mkLO false false [1; 2] [] 0 None); ERollbackLost [2]] in
+  wf_run (init true) evs /\
+  let s := run (init true) evs in
+  valid s = false /\ store s = [(2, Pess 10)] /\ tasks s = [TPessRb [2] 10] /\ store (run (init true) (evs ++ [ERun 0])) = [].
+Proof. split; [wf_solve|]. vm_compute. auto. Qed.
+
+(* request-level schedules of ONE failing LockKeys call (ProofsSched.v): the code schedules the rollback only after
+   every lock request of the call was answered; then whatever the order of the lock requests among themselves,
+   whatever they locked, and however the rollback is batched, re-batched and ordered, no pessimistic lock of the call
+   (for-update ts <= f) remains on a key of the call *)
+Theorem C06_call_requests_any_order_rollback_after :
+  forall all f locks rbs s k f',
+  (forall r, In r rbs -> is_rb f r) ->
+  (forall k, In k all -> exists r, In r rbs /\ In k (rb_keys r)) ->
+  In (k, Pess f') (exec (locks ++ rbs) s) -> In k all -> f < f'.
+Proof. exact rollback_after_all_locks. Qed.
+Print Assumptions C06_call_requests_any_order_rollback_after.
+
+(* the one reordering that is not tolerated — and that the unmodified code never produces: a lock request of the call
+   served after the rollback leaves a lock nothing tracks (seeded change C06-5 returns from LockKeys early) *)
+Theorem C06_lock_served_after_rollback_leaves_lock :
+  forall pre k r f s, exists l, In (k, l) (exec (pre ++ [RLock (k :: r) f]) s).
+Proof. exact lock_after_rollback_leaves_lock. Qed.
+Print Assumptions C06_lock_served_after_rollback_leaves_lock.
+
+Example C06_schedules_of_one_call :
+  exec [RLock [2] 10; RLock [] 10; RLock [1] 10; RRb [3; 1] 10; RRb [2] 10] [] = [] /\
+  exec [RLock [1] 10; RLock [] 10; RRb [1; 2; 3] 10; RLock [2] 10] [] = [(2, Pess 10)].
+Proof. vm_compute. auto. Qed.
 
 (* ---- regression replays of the fixed findings F19 / F19b ---- *)
 Definition ok_lock (ks : list key) : lock_out := mkLO false false ks [] 0 None.
